@@ -2,7 +2,7 @@
 
    Model: PV.Model.RawReader (mirror of raw_io.py RawBinaryReader.arrays / concatenate) over PV.Model.RawParser.
    The thread pool is ANY completion order [sched n] (a permutation of the n submitted tasks) gathered in submission
-   order.  The batch loop exists in two variants [lfix]: false = the pinned tree, true = the repair
+   order.  The batch loop exists in two variants [lfix]: false = the originally pinned tree, true = the repair (committed to /repo as b37e1e6 + 17ed0bd)
    proposed_fixes/C04_raw_reader_batch_loop.diff (leave the loop when a batch reads 0 blocks); which one mirrors the
    working tree is decided on every run by the correspondence.
    Outcome: batch size, completion order, selection, re-reading and concatenation hold for both variants; "first n
